@@ -233,7 +233,7 @@ class Sim:
     # ------------------------------------------------------------------ ops
     def op_initiate(self):
         b = self.st.initiate()
-        self.emit("initiate", f"{str(bool(b)).lower()} cworker={self.st.cworker} toinit={self.st.toinitiate}", "initiate")
+        self.emit("initiate", f"{str(bool(b)).lower()} cworker={self.st.cworker if self.st.cworker is not None else 0} toinit={self.st.toinitiate}", "initiate")
         return b
 
     def op_loop(self):
